@@ -44,6 +44,8 @@ def gen_cases(tier, seed):
                 ("tolerated-failures", ["--ownership"], "xattrs"), ("backup-every-file", ["--backup", "numbered"], "mixed"),
                 # a chain of n nested directories with one file each: the walker must not keep one handle per level
                 ("deep-tree", [], "deep"), ("deep-tree-deref", ["-L"], "deep"),
+                # ... nor may what is done before the walk: a `**` pattern (matching nothing) next to the tree itself, under --glob
+                ("deep-tree-globstar", ["--glob"], "deep"),
                 # a refresh of a tree of very many directories with --backup auto (every destination directory is listed)
                 ("backup-auto-many-dirs", ["--backup", "auto"], "dirs"), ("backup-auto-many-dirs-b", ["--backup", "auto"], "dirs"),
                 # a file-creation mask that takes write and search permission away from the owner (directories come out 0555 / 0444)
@@ -52,7 +54,7 @@ def gen_cases(tier, seed):
         for driver in ("parblock", "parfile"):
             if tier == "quick" and (vi + (driver == "parfile")) % 2 and content != "sparse":      # (the two drivers treat sparse files quite differently: both, always)
                 continue
-            for n in (([300, 1150] if not extra else [200, 500]) if content == "deep" else ladder[:2] if tier == "quick" else ladder):
+            for n in (([300, 1150] if not extra or extra == ["--glob"] else [200, 500]) if content == "deep" else ladder[:2] if tier == "quick" else ladder):
                 yield {"group": gid, "driver": driver, "workers": 4, "n": n, "sname": "slow-workers:" + vname, "plan": dict(scheds[0][1], sched_seed=r.randrange(1 << 30)),
                        "fs": "ext4", "seed": r.randrange(1 << 30), "extra": extra, "content": content}
             gid += 1
@@ -119,6 +121,8 @@ def run_case(case):
         plan.update({"log_mode": "none", "nofile": 1024, "max_steps": 800 * n + 600000 + (8 * n * n if content == "deep" else 0), "wall_ms": 600000, "cpu_ms": 300000, "pct_horizon": 2000,
                      "sched_cap_us": 2000})
         args = ["--driver", case["driver"], "-w", str(case["workers"]), "--block-size", str(bs)] + case.get("extra", []) + ["-r", "src", "dst"]
+        if "globstar" in case["sname"]:
+            args = args[:-2] + ["src/**/zzz*", "src", "dst"]
         if content == "sources":
             # hundreds of sources on the command line (every directory of the tree is named individually)
             os.makedirs(os.path.join(b(root), b"dst"))
